@@ -88,12 +88,15 @@ pub fn main(args: &Args) -> i32 {
         restart: 2,
         immediate: 1,
         leave: 0,
+        // stored snapshots disappear behind a client's back (a second instance pruning): the
+        // next race then runs into a rollback that storage refuses
+        vanish: 2,
         ..Weights::default()
     };
     let spec = Spec {
         id: "C20",
         level: "exploration",
-        rule: "commit-heavy histories (long chains so that two-digit epochs occur, races and rollbacks, restarts) with snapshot retention 0..6 on both backends; after every API call the acting client's list_group_snapshots must hold at most `retention` entries and exactly the (epoch, commit id) pairs of its most recent commits applied through process_message on its current branch (entries at or above a rollback target are dropped, the re-applied winner is added); with a 1 s time-to-live every SQLite client restarted more than 2 s later must come up with no snapshot. Non-trivial = retention pruned an entry or a rollback dropped a suffix; distinct = distinct plans".into(),
+        rule: "commit-heavy histories (long chains so that two-digit epochs occur, races and rollbacks, restarts) with snapshot retention 0..6 on both backends; after every API call the acting client's list_group_snapshots must hold at most `retention` entries and exactly the (epoch, commit id) pairs of its most recent commits applied through process_message on its current branch (entries at or above a rollback target are dropped, the re-applied winner is added); stored snapshots (all, or only the oldest) occasionally disappear behind a client's back, so that a later commit race runs into a refused rollback - the bound must hold afterwards as well (vanished names are not expected; a sixth of the histories start with a directed prelude: a losing branch three commits deep, its oldest snapshot gone, the better commit arriving, the branch going on); with a 1 s time-to-live every SQLite client restarted more than 2 s later must come up with no snapshot. Non-trivial = retention pruned an entry or a rollback dropped a suffix; distinct = distinct plans".into(),
         assumptions: vec![
             "commits applied with merge_pending_commit take no snapshot (that is known finding O6 of C01, not a bound violation)".into(),
             "snapshot names encode (epoch, commit id); they are compared as a set".into(),
@@ -109,7 +112,46 @@ pub fn main(args: &Args) -> i32 {
         || {
             use proptest::prelude::*;
             // a warm-up of 0..12 uncontested commits so that two-digit epochs occur
-            (0usize..13, plan_strategy(&opts, &weights, len.clone())).prop_map(|(warm, mut plan)| {
+            (0usize..13, plan_strategy(&opts, &weights, len.clone()), 0u8..6, any::<bool>()).prop_map(|(warm, mut plan, roll, sql)| {
+                use crate::world::{Apply, Op};
+                if roll == 0 {
+                    // directed: a losing branch three commits deep at c2, its oldest snapshot
+                    // disappears, the better commit arrives (the rollback is refused by storage),
+                    // and the losing branch goes on - the bound must still hold
+                    plan.setup.members = 3;
+                    plan.setup.admin_mask = 1;
+                    plan.setup.regime = Regime::Causal;
+                    plan.setup.cfg.retention = plan.setup.cfg.retention.clamp(2, 4);
+                    plan.setup.cfg.ttl = Cfg::default().ttl;
+                    if sql {
+                        plan.setup.backends = vec![BackendKind::Sql; 10];
+                    }
+                    let n_act = 3 + plan.setup.spares as u32;
+                    let act = |i: u32| (((i << 16) / 2) + 1) as u16; // c0, c1 act (c2 only receives here, but is active too)
+                    let _ = act;
+                    let a3 = |i: u32| (((i << 16) / 3) + 1) as u16;
+                    let mem = |i: u32| (((i << 16) / n_act) + 1) as u16;
+                    let mut pre = vec![];
+                    for _ in 0..3 {
+                        pre.push(Op::SelfUpdate { m: a3(0), ts: 3, apply: Apply::Echo });
+                        pre.push(Op::SelfEcho { m: mem(0) });
+                    }
+                    pre.push(Op::SelfUpdate { m: a3(1), ts: 1, apply: Apply::Echo });
+                    for _ in 0..3 {
+                        pre.push(Op::Deliver { m: mem(2), sel: 0 });
+                    }
+                    pre.push(Op::SnapshotsVanish { m: mem(2), only_oldest: true });
+                    pre.push(Op::Deliver { m: mem(2), sel: 0 });
+                    for _ in 0..3 {
+                        pre.push(Op::SelfUpdate { m: a3(0), ts: 3, apply: Apply::Echo });
+                        pre.push(Op::SelfEcho { m: mem(0) });
+                        pre.push(Op::CatchUp { m: mem(2) });
+                    }
+                    plan.ops.truncate(20);
+                    pre.extend(plan.ops);
+                    plan.ops = pre;
+                    return plan;
+                }
                 let mut pre = vec![];
                 for i in 0..warm {
                     pre.push(crate::world::Op::SelfUpdate { m: (i as u16).wrapping_mul(7919), ts: (i % 6) as u8, apply: crate::world::Apply::Echo });
